@@ -106,13 +106,19 @@ let choices (maxtasks : int) (maxcount : int) (s : state) : choice list =
   let ks = if s.qwait = [] then [O] else List.mapi (fun i _ -> nat_of_int i) s.qwait in
   let room = List.length s.ledger < maxtasks in
   let subs = if room then List.map (fun k -> CSubmit k) ks else [] in
-  let res = List.init (maxcount + 1) (fun n -> CResize (nat_of_int n)) in
+  (* repeated up/down resizing creates threads faster than they exit (in the real class as
+     well); the exploration keeps at most maxcount+1 live threads *)
+  let running = List.length s.threads - ni s.stop_count in
+  let res = List.filter_map (fun n ->
+      if n > running && List.length s.threads + (n - running) > maxcount + 1 then None
+      else Some (CResize (nat_of_int n))) (List.init (maxcount + 1) (fun n -> n)) in
   let ws = List.concat_map (fun (w, pc) ->
     match pc with
     | WAcq | WNotified -> [CWork w]
     | WRun _ -> CFinish (w, false) :: (if room then List.map (fun k -> CFollow (w, k)) ks else [])
     | WWait -> []) s.workers in
-  subs @ res @ ws @ [CSdCall true; CSdCall false; CSd true; CSd false]
+  let sdc = if List.length s.threads <= maxcount + 1 then [CSdCall true; CSdCall false] else [] in
+  subs @ res @ ws @ sdc @ [CSd true; CSd false]
 
 let explore maxtasks maxcount maxstates =
   let seen : (string, unit) Hashtbl.t = Hashtbl.create 100000 in
